@@ -19,6 +19,7 @@ import (
 	"fmt"
 	"os"
 	"sync/atomic"
+	"time"
 
 	"github.com/paulmach/osm"
 	"github.com/paulmach/osm/osmpbf"
@@ -34,7 +35,19 @@ type result struct {
 }
 
 // perturb bits: 1 slow/chunked reader, 2 filter jitter, 4 consumer jitter, 8 skew (even blocks slow)
+// scan runs scan1 under a watchdog: a scan that does not finish is an observation (Hung).
 func scan(f *pipesup.File, procs, perturb int, seed int64, cancelAt int64) result {
+	ch := make(chan result, 1)
+	go func() { ch <- scan1(f, procs, perturb, seed, cancelAt) }()
+	select {
+	case r := <-ch:
+		return r
+	case <-time.After(20 * time.Second):
+		return result{Err: -1, Retain: "scan did not finish within 20 s (pipeline deadlock)"}
+	}
+}
+
+func scan1(f *pipesup.File, procs, perturb int, seed int64, cancelAt int64) result {
 	ctx, cancel := context.WithCancel(context.Background())
 	defer cancel()
 	rd := pipesup.NewReader(f)
@@ -161,6 +174,9 @@ func main() {
 			c.Desc = map[string]interface{}{"procs": procs, "header": f.Header, "items": f.Items, "trunc": f.Trunc, "perturb": perturb,
 				"delivered": r.IDs, "err": r.Err, "procs1_delivered": base.IDs, "expected": f.Expected()}
 			w.Add(c)
+			if r.Err == -1 || base.Err == -1 {
+				break
+			}
 			w.Count(fmt.Sprintf("perturb:%d", perturb))
 			if first == nil {
 				first = c
@@ -178,6 +194,9 @@ func main() {
 			c.Desc = map[string]interface{}{"procs": procs, "header": f.Header, "items": f.Items, "trunc": f.Trunc, "cancel_in_filter_of_block": at,
 				"delivered": r.IDs, "err": r.Err, "expected": f.Expected()}
 			w.Add(c)
+			if r.Err == -1 {
+				break
+			}
 			w.Count(fmt.Sprintf("cut_delivered_all:%v", len(r.IDs) == len(f.Expected())))
 		}
 		w.Count(fmt.Sprintf("procs:%d", bucket(procs)))
